@@ -693,3 +693,6 @@ def run(c, facts):
     c.run(r19_every_error, facts)
     c.run(r4_change, facts)
     c.run(lambda c: c08.r5_binder_kind(c, facts, rule='C15.R5', crates=('oal_client',)))
+
+
+EXPLANATION += ' (R18) VALIDITY-NOW (shared C10.R7): import validity is asked of the file system at every load. (R19) EVERY-ERROR: Workspace::diagnostics walks the pending errors as taken (no filtering adaptor) and stores a diagnostic in every iteration.'
